@@ -21,6 +21,9 @@ from . import tables as T
 from . import wire as W
 from .pathcond import Analysis, effect_paths, OK, ERR
 from .respser import parent_map
+from . import sym as S
+from . import valueset as VS
+from . import dispatch as D
 
 LEVEL = "other"
 
@@ -40,82 +43,178 @@ def find_visit_seq(F, type_path):
     return de[0], (vs[0] if len(vs) == 1 else None)
 
 
-def loop_parts(fn):
-    """the single element loop of a visit_seq, in any of the container-exhausting shapes (hirq.consuming_loop)"""
-    loops = [x for x in H.walk(fn["body"]) if x.get("k") == "loop"]
-    if len(loops) != 1:
-        return None
-    cl = H.consuming_loop(loops[0])
-    if cl is None:
-        return None
-    b = H.pat_bindings(cl["pat"]) if cl["pat"] else []
-    body = cl["body"][0] if len(cl["body"]) == 1 else {"k": "block", "stmts": [x if x.get("k") in ("let", "semi", "expr") else {"k": "expr", "e": x} for x in cl["body"]], "sp": ""}
-    return {"loop": loops[0], "elem_id": b[0][1] if len(b) == 1 else None, "elem_ty": (cl["next"].get("targs") or [None, None])[1], "body": body, "next": cl["next"], "try": cl["tryn"]}
+def fresh_value(t):
+    """a freshly created empty container / default value"""
+    return t[0] == "call" and not t[2] and t[1].split("::")[-1] in ("default", "new")
 
 
-def check_filter(ctx, F, cfg, type_path, out_field, elem_ty, key):
+def rooted_fresh(t):
+    while t[0] in ("field", "proj", "tproj", "index"):
+        t = t[1]
+    if t[0] == "ctor" and len(t[2]) == 1:
+        return rooted_fresh(t[2][0])
+    return fresh_value(t)
+
+
+READ_ONLY = ("len", "capacity", "is_empty", "is_full", "as_slice", "as_ref", "iter", "first", "last", "get", "contains")
+
+
+def check_filter(ctx, F, cfg, type_path, acc_of, elem_ty, conv_ref, key, on_unknown):
+    """one filtering visit_seq, from its path summaries (one symbolic iteration of the element loop):
+       * the function returns from inside the loop only with the error of next_element itself;
+       * the loop is left (break) only when next_element returned None;
+       * on an iteration that got an element E: C = <conv>(E); C Ok -> exactly push(ACC, value of C) with the Result dropped,
+         C Err -> `on_unknown` (nothing / unknown = true); nothing else touches the output;
+       * the result after the loop is Ok(OUT), OUT starting as the empty default."""
     de, vs = find_visit_seq(F, type_path)
     if not ctx.oblige(key + "|anchor", vs is not None, "anchor missing: hand-written visit_seq of " + type_path, cfg=cfg):
         return None
     where = vs["sp"]
-    # entry point: deserialize_seq
     entry = [x.get("callee") for x in H.walk(de["body"]) if (x.get("callee") or "").startswith("serde_core::de::Deserializer::deserialize_")]
     ctx.oblige(key + "|entry", entry == ["serde_core::de::Deserializer::deserialize_seq"], "%s is not decoded as a sequence (%s)" % (type_path, entry), cfg=cfg, where=de["sp"], nontrivial=False)
-    lp = loop_parts(vs)
-    if not ctx.oblige(key + "|loop", lp is not None and lp["elem_id"] is not None, "the element loop is no longer `while let Some(x) = seq.next_element()? { .. }`", cfg=cfg, where=where):
+    conv_fn = F.trait_impl_fn(conv_ref, "try_from")
+    conv_path = conv_fn["path"] if conv_fn else None
+
+    def is_effect(callee, args, node, st):
+        if callee == NEXT or callee == conv_path:
+            return True
+        if callee == "<assign>":
+            return bool(args) and rooted_fresh(args[0])
+        if callee == "<closure>":
+            return any(rooted_fresh(x) for a in args for x in S.subterms(a))
+        if args and rooted_fresh(args[0]) and (callee or "").split("::")[-1] not in ("default", "new"):
+            return (callee or "").split("::")[-1] not in READ_ONLY
+        return False
+
+    def inline(path, node):
+        f = sym.body_for(path)
+        return f is not None and (f.get("pv") or "user") == "user" and path != conv_path
+
+    sym = S.Sym(F, vs, is_effect=is_effect, inline=inline)
+    try:
+        paths = sym.run()
+    except S.TooManyPaths:
+        ctx.violation(key + "|paths", "the list decoder has too many paths to enumerate", cfg=cfg)
         return None
-    ctx.oblige(key + "|elem-type", W.erase_lt(lp["elem_ty"] or "") == elem_ty, "elements are decoded as %s, expected %s" % (lp["elem_ty"], elem_ty), cfg=cfg, where=where)
-    A = Analysis(vs)
-    pm = parent_map(vs["body"])
-    # only error exit: the `?` on next_element
-    ctx.oblige(key + "|only-cbor-error", len(A.tries) == 1 and A.tries[0].node is H.strip_block(lp["try"]["e"]),
-               "the list decoder has %d `?` exits; only a fault in next_element() may fail the request" % len(A.tries), cfg=cfg, where=where)
-    errs = [s for s in A.sites if s.wrappers[:1] == [ERR]]
-    rets = [x for x in H.walk(vs["body"]) if x.get("k") == "ret"]
-    ctx.oblige(key + "|no-explicit-error", not errs and not rets, "the list decoder returns an error / returns early for some entries: %s" % [A.site_str(s)["result"] for s in errs], cfg=cfg, where=where)
-    # output local
-    outs = [s for s in vs["body"].get("stmts", []) if s["k"] == "let" and s["pat"].get("k") == "bind" and W.erase_lt(s["pat"]["ty"]) == type_path]
-    if not ctx.oblige(key + "|output", len(outs) == 1, "no unique output value of type " + type_path, cfg=cfg, where=where):
-        return None
-    out_id = outs[0]["pat"]["id"]
-    init = H.strip_block(outs[0]["init"])
-    empty = False
-    if init.get("callee") == "core::default::Default::default":
-        empty = True
-    elif init.get("k") == "call" and init.get("ctor") in (type_path, "Self:" + type_path) and all(H.strip_block(a).get("callee") == "core::default::Default::default" for a in init["args"]):
-        empty = True
-    ctx.oblige(key + "|starts-empty", empty, "the output list does not start as the empty default", cfg=cfg, where=where)
-    oks = [s for s in A.sites if s.wrappers == [OK]]
-    ctx.oblige(key + "|returns-output", len(A.sites) == 1 and len(oks) == 1 and H.local_id(oks[0].node) == out_id and not oks[0].in_loop(), "the result is not Ok(<the list built>)", cfg=cfg, where=where)
+    outs = set()
+    n_iter = n_push = 0
+    elem_tys = set()
+    for i, p in enumerate(paths):
+        if p.done and p.done[0] == "panic":
+            ctx.oblige(key + "|no-panic|" + str(p.done[1])[:50], False, "the list decoder can panic (%s): a full list or a bad entry would abort instead of being skipped" % (p.done,), cfg=cfg, where=where)
+            continue
+        if p.done == "diverge":
+            ctx.oblige(key + "|no-panic|diverge", False, "the list decoder can diverge (panic!/unreachable!)", cfg=cfg, where=where)
+            continue
+        nexts = [e for e in p.effects if e.callee == NEXT]
+        if not ctx.oblige(key + "|loop", len(nexts) == 1 and p.loops == 1, "the list decoder is not a single loop over `seq.next_element()` (%d calls, %d loops on a path)" % (len(nexts), p.loops), cfg=cfg, where=where, nontrivial=False):
+            continue
+        N = nexts[0]
+        elem_tys.add(W.erase_lt((N.node.get("targs") or [None, ""])[1] or ""))
+        nk = sym.lookup(p, N.term)
+        body_opt = sym.proj(N.term, S.OK, 0)
+        ok_known = sym.lookup(p, body_opt)
+        muts = [e for e in p.effects if e.callee not in (NEXT, conv_path)]
+        convs = [e for e in p.effects if e.callee == conv_path]
+        r = p.result
+        if p.ret_loop_depth > 0:
+            good = nk == S.ERR and r is not None and r[0] == "ctor" and r[1] == S.ERR and D.strip_conv(r[2][0]) == sym.proj(N.term, S.ERR, 0) and not muts
+            ctx.oblige(key + "|only-cbor-error|%d" % i, good, "the list decoder returns early with %s when %s: only a fault in next_element() itself may fail the request" % (S.show(r)[:80], [S.show_atom(a) for a in p.atoms][-2:]), cfg=cfg, where=where)
+            continue
+        good = r is not None and r[0] == "ctor" and r[1] == S.OK and len(r[2]) == 1
+        ctx.oblige(key + "|returns-output|%d" % i, good, "the result after the loop is %s, not Ok(<the list built>)" % S.show(r)[:80], cfg=cfg, where=where, nontrivial=False)
+        if good:
+            outs.add(r[2][0])
+        if "break" in [t[0] for t in p.trace]:
+            ctx.oblige(key + "|drains|%d" % i, nk == S.OK and ok_known == S.NONE and not muts and not convs,
+                       "the element loop is left when %s: elements that were not read stay in the input (the rest of the array would be read as the next parameter)" % [S.show_atom(a) for a in p.atoms][-2:], cfg=cfg, where=where)
+            continue
+        if not ctx.oblige(key + "|iteration|%d" % i, nk == S.OK and ok_known == S.SOME, "an iteration of the element loop runs without an element having been read", cfg=cfg, where=where, nontrivial=False):
+            continue
+        n_iter += 1
+        E = sym.proj(body_opt, S.SOME, 0)
+        if not ctx.oblige(key + "|converts-entry|%d" % i, len(convs) == 1 and convs[0].args == (E,), "the entry is not classified by %s(<this entry>)" % conv_ref, cfg=cfg, where=where):
+            continue
+        C = convs[0]
+        ck = sym.lookup(p, C.term)
+        foreign = [a for a in p.atoms if a[1] not in (N.term, body_opt, C.term)]
+        ctx.oblige(key + "|decides-on-conversion|%d" % i, ck in (S.OK, S.ERR) and not foreign, "what happens to an entry depends on %s, not only on whether it is known" % [S.show_atom(a) for a in foreign][:2], cfg=cfg, where=where, nontrivial=False)
+        out0 = r[2][0] if good else None
+        if ck == S.OK:
+            pushes = [e for e in muts if e.kind == "call" and (e.callee or "").endswith("::push")]
+            g2 = len(muts) == 1 and len(pushes) == 1 and len(pushes[0].args) == 2 and pushes[0].args[1] == sym.proj(C.term, S.OK, 0)
+            ctx.oblige(key + "|pushes-converted-entry", g2, "a known entry leads to %s, expected exactly push(<list>, <the converted entry>)" % ["%s(%s)" % (S.short_fn(e.callee), ", ".join(S.show(a)[:40] for a in e.args)) for e in muts], cfg=cfg, where=where)
+            if g2:
+                n_push += 1
+                P = pushes[0]
+                ctx.oblige(key + "|push-discarded", sym.lookup(p, P.term) is None, "the Result of push is inspected (`?`, unwrap or a test): a full list would fail the request, panic or change the flow", cfg=cfg, where=H.line(P.node))
+                ctx.oblige(key + "|pushes-into-output", out0 is not None and acc_of(out0) == P.args[0], "the entry is pushed into %s, which is not the list that is returned" % S.show(P.args[0])[:60], cfg=cfg, where=H.line(P.node))
+        else:
+            want = on_unknown(out0)
+            got = [(e.kind, tuple(e.args)) for e in muts]
+            ctx.oblige(key + "|unknown-continues", got == want, "an unknown entry leads to %s, expected %s" % (["%s(%s)" % (S.short_fn(e.callee), ", ".join(S.show(a)[:40] for a in e.args)) for e in muts], "nothing" if not want else "unknown = true"), cfg=cfg, where=where)
+    ctx.oblige(key + "|elem-type", elem_tys == {elem_ty}, "elements are decoded as %s, expected %s" % (sorted(elem_tys), elem_ty), cfg=cfg, where=where)
+    ctx.oblige(key + "|one-output", len(outs) == 1, "the list decoder returns %d different values" % len(outs), cfg=cfg, where=where, nontrivial=False)
+    if len(outs) == 1:
+        out = next(iter(outs))
+        ctx.oblige(key + "|starts-empty", rooted_fresh(out), "the output list does not start as the empty default (%s)" % S.show(out)[:60], cfg=cfg, where=where)
+    ctx.oblige(key + "|one-push", n_push >= 1 and n_iter >= 2, "the loop body does not have both a known (push) and an unknown branch", cfg=cfg, where=where)
+    ctx.sample({"cfg": cfg, "filter": type_path, "paths": S.summarize(paths)}, limit=4)
+    return {"vs": vs, "paths": paths, "sym": sym}
 
-    # who-may-call on the output
-    def on_out(n):
-        ch = H.field_chain(n)
-        return ch is not None and ch[0] == outs[0]["pat"]["name"] and (H.local_id(n) == out_id or True)
 
-    touches = []
-    for x in H.walk(lp["body"]):
-        if x.get("k") == "mcall":
-            ch = H.field_chain(x["recv"])
-            if ch and ch[0] == outs[0]["pat"]["name"]:
-                touches.append(x)
-        elif x.get("k") in ("assign", "assignop"):
-            ch = H.field_chain(x["l"])
-            if ch and ch[0] == outs[0]["pat"]["name"]:
-                touches.append(x)
-    pushes = [x for x in touches if x.get("k") == "mcall" and x.get("callee") == PUSH and H.field_chain(x["recv"])[1:] == [out_field]]
-    others = [x for x in touches if x not in pushes]
-    return {"vs": vs, "lp": lp, "A": A, "pm": pm, "pushes": pushes, "others": others, "out_id": out_id, "where": where}
-
-
-def push_discarded(pm, p):
-    par = pm.get(id(p))
-    if par is not None and par.get("k") == "mcall" and par.get("callee") == RES_OK and par["recv"] is p:
-        gp = pm.get(id(par))
-        return gp is not None and gp.get("k") == "semi"
-    if par is not None and par.get("k") == "let" and par["pat"].get("k") == "wild":
-        return True
-    return False
+def known_conversion(ctx, F, cfg, conv):
+    """decision table of Known..::try_from over (type == "public-key"?) x (alg in a probe domain): Ok with the same alg exactly for
+    the public-key type and the known algorithms, Err otherwise"""
+    names = [n for p in conv["params"] for n, _ in H.pat_bindings(p)]
+    v = ("param", names[0])
+    ty, alg = ("field", v, "key_type"), ("field", v, "alg")
+    try:
+        paths = S.Sym(F, conv).run(split_result=True)
+    except S.TooManyPaths:
+        ctx.violation("C14|known|paths", "too many paths", cfg=cfg)
+        return
+    domain = sorted({-7, -8, -6, -9, 0, 1, -1, -35, -36, -257, -65535, 2147483647, -2147483648})
+    known = {-7, -8}
+    rows = []
+    bad_atoms = []
+    for p in paths:
+        tpol = None
+        for a in p.atoms:
+            if a[0] == "eq" and a[1] == ty and a[2] == ("lit", "public-key"):
+                tpol = a[3]
+        vals, unread = VS.path_set(p.atoms, alg, domain)
+        other = [a for a in p.atoms if not (a[0] == "eq" and a[1] == ty) and VS.atom_set(a, alg, domain) is None]
+        bad_atoms += unread + other
+        rows.append((p, tpol, vals))
+    ctx.oblige("C14|known|readable", not bad_atoms, "the known-parameter conversion decides on %s" % [S.show_atom(a) for a in bad_atoms][:2], cfg=cfg, where=conv["sp"], nontrivial=False)
+    acc_ok = rej_ok = same_alg = True
+    why = ""
+    for tp in (True, False):
+        for x in domain:
+            sel = [p for p, tpol, vals in rows if (tpol is None or tpol == tp) and x in vals]
+            want_ok = tp and x in known
+            if len(sel) != 1 or (sel[0].done and sel[0].done[0] == "panic"):
+                acc_ok = rej_ok = False
+                why = "%d paths for type%s, alg=%d" % (len(sel), "==" if tp else "!=", x)
+                continue
+            r = sel[0].result
+            is_ok = r is not None and r[0] == "ctor" and r[1] == S.OK
+            is_err = r is not None and r[0] == "ctor" and r[1] == S.ERR
+            if want_ok:
+                if not is_ok:
+                    acc_ok = False
+                    why = "type==, alg=%d gives %s" % (x, S.show(r)[:50])
+                elif r[2][0] != ("struct", KNOWN, (("alg", alg),)):
+                    same_alg = False
+            else:
+                if not is_err:
+                    rej_ok = False
+                    why = "type%s, alg=%d gives %s" % ("==" if tp else "!=", x, S.show(r)[:50])
+    ctx.oblige("C14|known|accepts", acc_ok, "an entry is not accepted exactly under {type == \"public-key\", alg in KNOWN_ALGS}: %s" % why, cfg=cfg, where=conv["sp"])
+    ctx.oblige("C14|known|same-alg", same_alg, "the accepted entry does not carry the algorithm that was sent", cfg=cfg, where=conv["sp"])
+    ctx.oblige("C14|known|rejects", rej_ok, "an entry with another type or an unknown algorithm is not rejected: %s" % why, cfg=cfg, where=conv["sp"])
+    ctx.sample({"cfg": cfg, "known_conversion": S.summarize(paths)}, limit=4)
 
 
 def run(ctx):
@@ -125,69 +224,12 @@ def run(ctx):
     ctx.trusted = ["heapless 0.7.17 Vec::push appends at the end or returns Err when full", "cbor-smol 0.5.1 SeqAccess::next_element", "derive(Deserialize) for PublicKeyCredentialParameters (C01 table)"]
     for cfg, F in ctx.facts.items():
         # ------------------------------------------------ algorithm list
-        key = "C14|algs"
-        r = check_filter(ctx, F, cfg, "webauthn::FilteredPublicKeyCredentialParameters", "0", PARAMS, key)
-        if r is not None:
-            A, lp, pm = r["A"], r["lp"], r["pm"]
-            ctx.oblige(key + "|append-only", not r["others"], "the filtered list is modified by something other than push: %s" % [A.desc(x)[:60] for x in r["others"]], cfg=cfg, where=r["where"])
-            if ctx.oblige(key + "|one-push", len(r["pushes"]) == 1, "expected exactly one push into the filtered list, found %d" % len(r["pushes"]), cfg=cfg, where=r["where"]):
-                p = r["pushes"][0]
-                ctx.oblige(key + "|push-discarded", push_discarded(pm, p), "the Result of push is not discarded with `.ok()`: a full list would fail the request or panic", cfg=cfg, where=H.line(p))
-                # pushed value = converted element of this iteration, unknown -> continue
-                arg_id = H.local_id(p["args"][0])
-                body = H.strip_block(lp["body"])
-                conv_ok = cont_ok = False
-                for s in (body.get("stmts") or []):
-                    if s["k"] == "let" and "els" in s and arg_id in [i for _, i in H.pat_bindings(s["pat"])]:
-                        init = H.strip_block(s["init"])
-                        conv_ok = H.pat_ctor(s["pat"]) == "core::result::Result::Ok" and H.conversion_impl(init) == "<%s as core::convert::TryFrom<%s>>" % (KNOWN, PARAMS) \
-                            and H.local_id(H.call_args(init)[0]) == lp["elem_id"]
-                        els = H.strip_block(s["els"])
-                        inner = [x for x in H.walk(els) if x.get("k") in ("continue", "break", "ret", "call", "mcall", "assign")]
-                        cont_ok = len(inner) == 1 and inner[0].get("k") == "continue"
-                if not conv_ok:
-                    # alternative shapes: `if let Ok(el) = value.try_into() { push }` / match
-                    for x in H.walk(body):
-                        if x.get("k") == "letexpr" and arg_id in [i for _, i in H.pat_bindings(x["pat"])]:
-                            init = H.strip_block(x["init"])
-                            conv_ok = H.pat_ctor(x["pat"]) == "core::result::Result::Ok" and H.conversion_impl(init) == "<%s as core::convert::TryFrom<%s>>" % (KNOWN, PARAMS) \
-                                and H.local_id(H.call_args(init)[0]) == lp["elem_id"]
-                            cont_ok = not any(y.get("k") in ("break", "ret") for y in H.walk(body))
-                ctx.oblige(key + "|pushes-converted-entry", conv_ok, "the entry pushed is not `Known::try_from(<this entry>)`", cfg=cfg, where=H.line(p))
-                ctx.oblige(key + "|unknown-continues", cont_ok and not any(y.get("k") == "break" for y in H.walk(body)), "an unknown algorithm/type does not simply continue with the next entry", cfg=cfg, where=r["where"])
-            ctx.sample({"cfg": cfg, "filter": "pubKeyCredParams", "elem": lp["elem_ty"], "pushes": [A.desc(x)[:100] for x in r["pushes"]]}, limit=4)
+        check_filter(ctx, F, cfg, "webauthn::FilteredPublicKeyCredentialParameters", lambda out: out[2][0] if out[0] == "ctor" and len(out[2]) == 1 else None, PARAMS,
+                     "<%s as core::convert::TryFrom<%s>>" % (KNOWN, PARAMS), "C14|algs", lambda out: [])
         # ------------------------------------------------ known-parameter conversion
         conv = F.trait_impl_fn("<%s as core::convert::TryFrom<%s>>" % (KNOWN, PARAMS), "try_from")
         if ctx.oblige("C14|known|anchor", conv is not None, "anchor missing: TryFrom<PublicKeyCredentialParameters> for Known..", cfg=cfg):
-            A = Analysis(conv)
-            TYPE = ("param:value.key_type", "'public-key'")
-            oks = [s for s in A.sites if s.wrappers == [OK]]
-            errs = [s for s in A.sites if s.wrappers == [ERR]]
-
-            def lits(s):
-                out = []
-                for c in s.conds:
-                    t = A.comparison(c)
-                    if t and (t[0], t[2]) == TYPE:
-                        out.append("type" + t[1])
-                        continue
-                    if c.kind == "expr":
-                        e = H.strip_block(c.e)
-                        if e.get("k") == "mcall" and e.get("callee") == "core::slice::<impl [T]>::contains" and A.desc(e["recv"]) == "webauthn::KNOWN_ALGS" and A.desc(e["args"][0]) == "param:value.alg":
-                            out.append("known" if c.pol else "!known")
-                            continue
-                    out.append("?" + A.cond_str(c))
-                return sorted(out)
-
-            good = len(oks) == 1 and lits(oks[0]) == ["known", "type=="]
-            ctx.oblige("C14|known|accepts", good, "an entry is accepted under %s, expected exactly {type == \"public-key\", KNOWN_ALGS.contains(alg)}" % [lits(s) for s in oks], cfg=cfg, where=conv["sp"])
-            if good:
-                n = H.strip_block(oks[0].node)
-                fl = {f["name"]: f["e"] for f in n.get("fields", [])} if n.get("k") == "struct" else {}
-                ctx.oblige("C14|known|same-alg", list(fl) == ["alg"] and A.desc(fl["alg"]) == "param:value.alg", "the accepted entry does not carry the algorithm that was sent", cfg=cfg, where=conv["sp"])
-            ctx.oblige("C14|known|rejects", sorted(map(str, [lits(s) for s in errs])) == sorted(map(str, [["type!="], ["!known", "type=="]])) and len(A.sites) == 3 and not A.tries,
-                       "rejection conditions are %s" % [lits(s) for s in errs], cfg=cfg, where=conv["sp"])
-            ctx.sample({"cfg": cfg, "known_conversion": [A.site_str(s) for s in A.sites]}, limit=4)
+            known_conversion(ctx, F, cfg, conv)
         # ------------------------------------------------ constants
         ka = F.const_value("webauthn::KNOWN_ALGS")
         ctx.oblige("C14|const|KNOWN_ALGS", isinstance(ka, list) and sorted(ka) == [-8, -7], "KNOWN_ALGS = %s, expected the set {ES256 (-7), EdDSA (-8)}" % (ka,), cfg=cfg)
@@ -203,39 +245,8 @@ def run(ctx):
                    "known_formats is %s for %s known formats" % (ft.get("known_formats"), fmt and len(fmt["variants"])), cfg=cfg)
         ctx.oblige("C14|formats|flag-type", ft.get("unknown") == "bool", "the unknown-format flag is %s" % ft.get("unknown"), cfg=cfg, nontrivial=False)
         # ------------------------------------------------ attestation formats
-        key = "C14|formats"
-        r = check_filter(ctx, F, cfg, "ctap2::AttestationFormatsPreference", "known_formats", "&str", key)
-        if r is not None:
-            A, lp, pm = r["A"], r["lp"], r["pm"]
-            body = H.strip_block(lp["body"])
-            sets = [x for x in r["others"] if x.get("k") == "assign" and H.field_chain(x["l"])[1:] == ["unknown"] and H.lit(x["r"]) is True]
-            rest = [x for x in r["others"] if x not in sets]
-            ctx.oblige(key + "|append-only", not rest, "the preference is modified by something other than push / unknown = true: %s" % [A.desc(x)[:60] for x in rest], cfg=cfg, where=r["where"])
-            if ctx.oblige(key + "|one-push", len(r["pushes"]) == 1 and len(sets) == 1, "expected one push and one `unknown = true`, found %d / %d" % (len(r["pushes"]), len(sets)), cfg=cfg, where=r["where"]):
-                p = r["pushes"][0]
-                ctx.oblige(key + "|push-discarded", push_discarded(pm, p), "the Result of push is not discarded with `.ok()`", cfg=cfg, where=H.line(p))
-                # paths of the loop body: known -> push, otherwise -> unknown = true
-                ps = effect_paths(body, lambda n: n is p or n is sets[0])
-                good = True
-                convs = []
-                for path in ps:
-                    pol = None
-                    for c in path.conds:
-                        if c.kind == "let" and H.pat_ctor(c.pat) == "core::result::Result::Ok":
-                            init = H.strip_block(c.init)
-                            if H.conversion_impl(init) == "<%s as core::convert::TryFrom<&str>>" % FMT and H.local_id(H.call_args(init)[0]) == lp["elem_id"]:
-                                pol = c.pol
-                                binds = [i for _, i in H.pat_bindings(c.pat)]
-                    eff = list(path.effects)
-                    if pol is True:
-                        good = good and eff == [p] and H.local_id(p["args"][0]) in binds
-                    elif pol is False:
-                        good = good and eff == [sets[0]]
-                    else:
-                        good = False
-                    good = good and path.done is None
-                ctx.oblige(key + "|known-vs-unknown", good and len(ps) == 2, "the loop body is not: known format -> push(format), any other text -> unknown = true", cfg=cfg, where=r["where"])
-            ctx.sample({"cfg": cfg, "filter": "attestationFormatsPreference", "elem": lp["elem_ty"]}, limit=4)
+        check_filter(ctx, F, cfg, "ctap2::AttestationFormatsPreference", lambda out: ("field", out, "known_formats"), "&str",
+                     "<%s as core::convert::TryFrom<&str>>" % FMT, "C14|formats", lambda out: [("assign", (("field", out, "unknown"), ("lit", True)))])
         # accepted formats
         bwd = F.trait_impl_fn("<%s as core::convert::TryFrom<&str>>" % FMT, "try_from")
         if ctx.oblige("C14|formats|table|anchor", bwd is not None, "anchor missing: TryFrom<&str> for AttestationStatementFormat", cfg=cfg):
